@@ -330,12 +330,14 @@ theorem reopen_index_trusted (env : Env) (hfix : env.advInvalid = Gen.BlockDBFac
     key that was added, never marked invalid and whose data is WITHIN THE CONFIGURED RETENTION returns the bytes of its first add
     and the latest trusted flag, every `length` its size: from the cache, from the queue, from the data file in the main
     directory or from its backup in oldat/, after any number of roll-overs and restarts.
-    "Within the configured retention" is defined from the model's file operations (`claimR` / `keyLost`,
-    Spec/BlockStoreMap.lean): no claim is made for a key whose written record points into a data file whose number is in the
-    ghost list `FS.lost` — a file that `removeDatFile` deleted without backup (roll-over or LoadBlockIndex clean-up with
-    `keep ≠ 0`), or a file that LoadBlockIndex shadowed by O_CREATE-ing a new file of the same number in the main directory
-    while the original sits in oldat/. The second case is exactly the known finding `backup-shadowed-by-new-file`
-    (`backup_shadowed_counterexample` below shows the unconditional claim is false there); nothing else is excluded.
+    "Within the configured retention" (`claimR` / `keyLost`, Spec/BlockStoreMap.lean): no claim is made for a key whose written
+    record points into a data file whose number is in the ghost list `FS.lost`. That list is bounded by the CONFIGURED policy —
+    `lost_outside_keep_window` below: a number enters it only when `removeDatFile` deletes the file in a session with
+    `keep ≠ 0` and no backup, and then it is below `maxdatfileidx − keep`. Nothing else is excluded (the former second case,
+    a backup shadowed by the O_CREATE of LoadBlockIndex, is repaired: `backup_restored_witness`).
+    "Never marked invalid": an entry that `BlockInvalid` FORGETS (still queued, untrusted: `forgets`) is removed from the
+    durable map, a later add of the same hash is a new entry and is claimed (`readd_after_queued_invalid_claimed`); an entry
+    marked invalid after it was written carries no claim from then on.
     The proof carries `Ref` (Proofs/C16Refine.lean) with the data file resolved as `BlockGet` does (`fileOf`: main directory,
     then oldat/), "the current data file exists in the main directory", and `Keeps` (Proofs/C16Retain.lean): roll-over,
     `removeDatFile`, `loadCleanup` and the O_CREATE leave every number that is not lost afterwards resolving to the same
